@@ -337,6 +337,16 @@ impl World {
                                 clause.1,
                                 format!("after {}: observer ep{} of {:?} has count {} pending {:?}, reference model says {} / {:?}", what, r.0, p, u, pend, mo.unacked, mo.pending),
                             ));
+                            if op == 1 {
+                                // C15 counts "since its last acknowledgement
+                                // or registration": a count that survives a
+                                // registration breaks C15 as well as C14
+                                self.viol.push(Violation::new(
+                                    "C15",
+                                    "counter",
+                                    format!("after {}: observer ep{} of {:?} keeps count {} pending {:?} across a registration", what, r.0, p, u, pend),
+                                ).with_sig("count-survives-registration"));
+                            }
                         }
                     }
                 }
